@@ -160,14 +160,14 @@ class DeribitAdapter:
             out.append(Op(f"{n}.withdraw[to-premium]", to_premium, False, f"{n}.withdraw"))
         names = ["C1", "P1"]
         for ins in names + ["NOPE"]:
-            for amt in ("1", "2", "6", "100", "0.4"):
+            for amt in ("1", "2", "6", "100", "0.4", "2.4"):
                 for pricing in ("market", "L0", "L1", "miss", "usd0", "cap1.01", "cap3"):
                     default = (amt, pricing) == ("1", "market") and ins == "C1"
                     if ins == "NOPE" and (amt, pricing) != ("1", "market"):
                         continue
                     if ins == "P1" and (amt not in ("1", "2") or pricing not in ("market", "L0")):
                         continue
-                    if amt in ("100", "0.4") and pricing != "market":
+                    if amt in ("100", "0.4", "2.4") and pricing != "market":
                         continue
                     if amt == "6" and pricing not in ("market", "L0", "cap1.01"):
                         continue
